@@ -618,7 +618,21 @@ class Interp:
         self.exec_block(s.orelse, env)
 
     def st_With(self, s, env):
-        raise Undecided(f"with-statement at line {s.lineno}")
+        # only context managers with a contract (pyvc_enter / pyvc_exit): e.g. warnings.catch_warnings()
+        mgrs = []
+        for item in s.items:
+            m = self.ev(item.context_expr, env)
+            if not (hasattr(m, "pyvc_enter") and hasattr(m, "pyvc_exit")):
+                raise Undecided(f"with-statement at line {s.lineno} ({type(m).__name__} has no contract)")
+            v = m.pyvc_enter(self)
+            if item.optional_vars is not None:
+                self.assign(item.optional_vars, v, env)
+            mgrs.append(m)
+        try:
+            self.exec_block(s.body, env)
+        finally:
+            for m in reversed(mgrs):
+                m.pyvc_exit(self)
 
     def st_Global(self, s, env):
         raise Undecided("global statement")
